@@ -7,6 +7,7 @@
 From Coq Require Import List ZArith String Bool Permutation.
 From IprV Require Import GenTypes GenCheck RBModel RBProofs Unify Arena ArenaProofs Memory.
 From IprV.gen Require Import GenStore.
+From IprV Require StateSpace.
 Import ListNotations.
 Local Open Scope string_scope.
 
@@ -50,6 +51,12 @@ Theorem c19_arena_in_bounds : forall ns, Forall (fun n => (0 <= n)%Z) ns ->
   Forall (fun b => (0 <= b_off b)%Z /\ (headersz * b_off b + padding + b_bytes b <= cap_of a (b_pool b))%Z) (a_blocks a).
 Proof. intros ns H. exact (proj2 (blocks_in_bounds_and_disjoint ns H)). Qed.
 
+(* the arena and the owning tree have the data members the allocation ledger accounts for (StateSpace.v against the regenerated GenState) *)
+Theorem c19_state_is_what_the_model_abstracts :
+  StateSpace.state_as_modelled (StateSpace.string_pool_state ++ StateSpace.tree_state) = true.
+Proof. vm_compute. reflexivity. Qed.
+
+Print Assumptions c19_state_is_what_the_model_abstracts.
 Print Assumptions c19_arena_chain_complete.
 Print Assumptions c19_tree_holds_exactly_allocated.
 Print Assumptions c19_no_leak_no_double_free.
